@@ -216,6 +216,24 @@ SPECS += [
          locals={"_data_shape": "Opt[List[Int]]", "_data_size": "Opt[Int]"}, props=["C14"]),
 ]
 
+# ---- schedule.py : the whole `while` loop of Composition.run (C02 C03 C05) -------------------------------------------
+# the state of the composition is a world `φ`: `m.time` / `comp.status` are read from it, `self._update_recursive(to_update)`
+# is a parameter that returns the updated component and the next world, `_check_status` a parameter that may raise
+SPECS += [
+    dict(lean="run_loop", path="schedule.py", qual="Composition.run", group="RunLoop", type_params=["φ"], loop_extras=True,
+         slice={"start": "while len(time_components) > 0", "end": "while len(time_components) > 0", "result": []},
+         fields={"world": "Lean:φ"}, params={"time_components": "List[Obj]", "end_time": "Int"},
+         extra_params={"timeOf": "Lean:(φ → Nat → Int)", "finishedOf": "Lean:(φ → Nat → Bool)",
+                       "updateRec": "Lean:(φ → Nat → Except Err (Nat × φ))", "checkUpd": "Lean:(φ → Nat → Except Err Unit)",
+                       "fuelN": "Lean:Nat"},
+         ret="Unit", fuel={"len(time_components) > 0": "lean:fuelN"},
+         consts={"m.time": ("(timeOf self_world m)", "Int"), "comp.time": ("(timeOf self_world comp)", "Int")},
+         conds={"comp.status != ComponentStatus.FINISHED": "(finishedOf self_world comp = false)"},
+         calls={"self._update_recursive": {"lean": "updateRec", "args": ["self.world", 0], "ret": "Obj", "updates": ["world"]},
+                "self._check_status": {"lean": "checkUpd", "args": ["self.world", 0], "stmt": True}},
+         props=["C02", "C03", "C05"]),
+]
+
 INTEG_COMMON = dict(
     path="adapters/time_integration.py", group="Integ", ret="Rat",
     calls={"self._unpack": "id", "interpolate": {"lean": "interpolate", "args": [0, 1, 2], "ret": "Rat"}},
